@@ -200,7 +200,7 @@ Definition union_single_and_range (v : aval) (min : option aval) (cs : option ch
                                 let set0 := fold_left (fun acc i => seq_insert i acc) idx1 [] in
                                 let set1 := fold_left (fun acc i => seq_insert i acc) (seq min_i (S max_i - min_i)) set0 in
                                 match set1 with
-                                | [] => Panic                                   (* indices[0] on an empty vector *)
+                                | [] => Err                                     (* empty: an error since the fix (indices[0] panicked before) *)
                                 | first :: rest =>
                                     if contiguous_from first rest then
                                       match nth_error chars first, nth_error chars (last set1 first) with
@@ -216,7 +216,7 @@ Definition union_single_and_range (v : aval) (min : option aval) (cs : option ch
                             end
                         | _, _ => Err
                         end
-                    | _, _ => Panic                                              (* chars().next().unwrap() *)
+                    | _, _ => Err                                                (* find_string_index: empty endpoint (a panic before 5a3df6a) *)
                     end
                 | VStr _, _, _, None => if rc then Ok None else Err
                 | _, _, _, _ => Err
